@@ -17,7 +17,10 @@ func optStr(pool []string, o O) *string {
 }
 
 func concTD(td TD) *gtfsrt.TripDescriptor {
-	d := &gtfsrt.TripDescriptor{TripId: optStr(TripIDs, td.ID), RouteId: optStr(RouteIDs, td.Route)}
+	d := &gtfsrt.TripDescriptor{RouteId: optStr(RouteIDs, td.Route)}
+	if td.ID.IsSome() {
+		d.TripId = sp(tripIDStr(td.ID.Val()))
+	}
 	if td.Dir.IsSome() {
 		x := uint32(td.Dir.Val())
 		d.DirectionId = &x
